@@ -73,7 +73,10 @@ type Scen struct {
 	SizesA, SizesB []int
 	// GapsA / GapsB (optional) are sleeps before each Send.
 	GapsA, GapsB []time.Duration
-	Horizon      time.Duration
+	// RecvGapsA / RecvGapsB (optional) are sleeps of the receiving
+	// application before each Recv (slow consumer).
+	RecvGapsA, RecvGapsB []time.Duration
+	Horizon              time.Duration
 	// Quiesce is how long to keep observing after both flows completed and
 	// both send queues drained; QuiesceWait bounds the wait for the drain.
 	Quiesce     time.Duration
@@ -145,7 +148,7 @@ func gapFn(g []time.Duration) func(int) time.Duration {
 func RunScen(t *testing.T, sc *Scen, h Hooks) *ScenResult {
 	res := &ScenResult{Scen: sc, DoneC: -1, DoneS: -1}
 	synctest.Test(t, func(t *testing.T) {
-		runScenBody(sc, h, res)
+		runScenBody(sc, h, res, synctest.Wait)
 		res.Leaked = Settle()
 		if len(res.Leaked) > 0 {
 			if h.OnLeak != nil {
@@ -160,11 +163,11 @@ func RunScen(t *testing.T, sc *Scen, h Hooks) *ScenResult {
 // RunScenRealTime executes the same scenario on the real clock.
 func RunScenRealTime(sc *Scen, h Hooks) *ScenResult {
 	res := &ScenResult{Scen: sc, DoneC: -1, DoneS: -1}
-	runScenBody(sc, h, res)
+	runScenBody(sc, h, res, nil)
 	return res
 }
 
-func runScenBody(sc *Scen, h Hooks, res *ScenResult) {
+func runScenBody(sc *Scen, h Hooks, res *ScenResult, settle func()) {
 	ctx, cancel := context.WithCancel(context.Background())
 	defer cancel()
 
@@ -217,8 +220,8 @@ func runScenBody(sc *Scen, h Hooks, res *ScenResult) {
 	p.C2S.SetDecider(sc.FaultC2S.Decider(fs))
 	p.S2C.SetDecider(sc.FaultS2C.Decider(fs))
 
-	fa, doneA := RunFlow(p.C, p.S, FlowSpec{Dir: 'a', Count: len(sc.SizesA), Size: sizeFn(sc.SizesA), Gap: gapFn(sc.GapsA)}, t0)
-	fb, doneB := RunFlow(p.S, p.C, FlowSpec{Dir: 'b', Count: len(sc.SizesB), Size: sizeFn(sc.SizesB), Gap: gapFn(sc.GapsB)}, t0)
+	fa, doneA := RunFlow(p.C, p.S, FlowSpec{Dir: 'a', Count: len(sc.SizesA), Size: sizeFn(sc.SizesA), Gap: gapFn(sc.GapsA), RecvGap: gapFn(sc.RecvGapsA)}, t0)
+	fb, doneB := RunFlow(p.S, p.C, FlowSpec{Dir: 'b', Count: len(sc.SizesB), Size: sizeFn(sc.SizesB), Gap: gapFn(sc.GapsB), RecvGap: gapFn(sc.RecvGapsB)}, t0)
 	res.A, res.B = fa, fb
 
 	var dwg sync.WaitGroup
@@ -308,6 +311,11 @@ func runScenBody(sc *Scen, h Hooks, res *ScenResult) {
 		}
 	}
 
+	// Let everything that happens at this very instant (e.g. a FIN that was
+	// just delivered) be processed before the endpoints are inspected.
+	if settle != nil {
+		settle()
+	}
 	res.Elapsed = time.Since(t0)
 	res.StateC, res.StateS = p.C.VerifState(), p.S.VerifState()
 	if h.BeforeClose != nil {
